@@ -463,3 +463,28 @@ func init() {
 		return src, out, ok, err
 	}
 }
+
+// C11: a clause that takes one argument silently ignores further ones.
+func init() {
+	witness := map[string]string{
+		"limit-one-argument":     "select count(a) from stats limit 10 20",
+		"interval-one-argument":  "select count(a) from stats interval 5 6",
+		"logformat-one-argument": "select count(a) from stats logformat generic csv",
+		"order-one-argument":     "select count(a),b from stats group by b order by b count(a)",
+		"rorder-one-argument":    "select count(a),b from stats group by b rorder by b count(a)",
+	}
+	for lbl, query := range witness {
+		query := query
+		specialReplays["mapr.(*Query).parseTokens#inv-pres:loop1/step:"+lbl] = func(P *Program, v *ObligResult) (string, string, bool, error) {
+			fn := fnOfObligation(P, v.Name)
+			g := &goGen{P: P, model: v.Model, pkg: fn.Pkg.Pkg, imports: map[string]bool{"testing": true, "fmt": true}}
+			body := fmt.Sprintf(`q, err := NewQuery(%q)
+		if err == nil {
+			panic(fmt.Sprintf("malformed query accepted, the extra argument is ignored: %%v", q))
+		}`, query)
+			src := g.testFile(fn.Pkg.Pkg, body)
+			out, ok, err := runOverlayTest(P, fn.Pkg.Pkg, src)
+			return src, out, ok, err
+		}
+	}
+}
